@@ -55,17 +55,20 @@ static double cv(int v, int i)
     default: return i - 2;
     }
 }
-static double *mat(int m, int n, int v, int which)
+/* contents are multiplied by `scale`: 1, or - in the float / long double builds, for the kernels that only move data -
+   1 + 2^-20 resp. 1 + 2^-60, so that every element needs the full mantissa of the element type */
+static a_real scale = 1;
+static a_real *mat(int m, int n, int v, int which)
 {
-    double *p = (double *)malloc(sizeof(double) * (size_t)(m * n ? m * n : 1));
+    a_real *p = (a_real *)malloc(sizeof(a_real) * (size_t)(m * n ? m * n : 1));
     for (int r = 0; r < m; ++r)
     {
-        for (int c = 0; c < n; ++c) { p[r * n + c] = which ? cy(v, r, c) : cx(v, r, c); }
+        for (int c = 0; c < n; ++c) { p[r * n + c] = (a_real)(which ? cy(v, r, c) : cx(v, r, c)) * scale; }
     }
     return p;
 }
 #define GUARD 8
-#define GVAL -77777.25
+#define GVAL ((a_real)-77777.25)
 
 int main(int argc, char **argv)
 {
@@ -90,27 +93,30 @@ int main(int argc, char **argv)
         int k = (int)v[1], a = (int)v[2], b = (int)v[3], c = (int)v[4], var = (int)v[5], ne = (int)v[6];
         if (n != 7 + ne) { fprintf(stderr, "bad line\n"); return 3; }
         long const *exp = v + 7;
-        double *X = NULL, *Y = NULL;
+        /* kernels that only move data (transposes, diagonal and triangular extraction / construction without unit entries) */
+        int const moves = k == 5 || k == 6 || k == 11 || k == 12 || k == 13 || k == 14 || k == 16 || k == 17 || k == 19;
+        scale = (moves && sizeof(a_real) != 8) ? (a_real)1 + (a_real)ldexpl(1.0L, sizeof(a_real) == 4 ? -20 : -60) : (a_real)1;
+        a_real *X = NULL, *Y = NULL;
         /* result array: guard cells on both sides inside the block, and the block itself exactly sized */
-        double *blk = (double *)malloc(sizeof(double) * (size_t)(ne + 2 * GUARD));
-        double *Z = blk + GUARD;
+        a_real *blk = (a_real *)malloc(sizeof(a_real) * (size_t)(ne + 2 * GUARD));
+        a_real *Z = blk + GUARD;
         for (int i = 0; i < ne + 2 * GUARD; ++i) { blk[i] = GVAL; }
-        double *vec = NULL;
+        a_real *vec = NULL;
         switch (k)
         {
         case 1: X = mat(a, b, var, 0); Y = mat(b, c, var, 1); a_real_mulmm((a_uint)a, (a_uint)b, (a_uint)c, X, Y, Z); break;
         case 2: X = mat(a, b, var, 0); Y = mat(a, c, var, 1); a_real_mulTm((a_uint)a, (a_uint)b, (a_uint)c, X, Y, Z); break;
         case 3: X = mat(a, c, var, 0); Y = mat(b, c, var, 1); a_real_mulmT((a_uint)a, (a_uint)b, (a_uint)c, X, Y, Z); break;
         case 4: X = mat(b, a, var, 0); Y = mat(c, b, var, 1); a_real_mulTT((a_uint)a, (a_uint)b, (a_uint)c, X, Y, Z); break;
-        case 5: X = mat(a, a, var, 0); memcpy(Z, X, sizeof(double) * (size_t)(a * a)); a_real_T1((a_uint)a, Z); break;
+        case 5: X = mat(a, a, var, 0); memcpy(Z, X, sizeof(a_real) * (size_t)(a * a)); a_real_T1((a_uint)a, Z); break;
         case 6: X = mat(a, b, var, 0); a_real_T2((a_uint)a, (a_uint)b, X, Z); break;
         case 7: a_real_eye1((a_uint)a, Z); break;
         case 8: a_real_eye2((a_uint)a, (a_uint)b, Z); break;
         case 9: a_real_tri1((a_uint)a, Z); break;
         case 10: a_real_tri2((a_uint)a, (a_uint)b, Z); break;
         case 11:
-            vec = (double *)malloc(sizeof(double) * (size_t)a);
-            for (int i = 0; i < a; ++i) { vec[i] = cv(var, i + 1); }
+            vec = (a_real *)malloc(sizeof(a_real) * (size_t)a);
+            for (int i = 0; i < a; ++i) { vec[i] = (a_real)cv(var, i + 1) * scale; }
             a_real_diag((a_uint)a, vec, Z);
             break;
         case 12: X = mat(a, a, var, 0); a_real_diag1((a_uint)a, X, Z); break;
@@ -133,11 +139,12 @@ int main(int argc, char **argv)
         fprintf(f, "{\"k\":%d,\"dims\":[%d,%d,%d,%d],\"guard\":%d,\"out\":[", k, a, b, c, var, guard);
         for (int i = 0; i < ne; ++i)
         {
-            double z = Z[i];
-            long zi = (long)z;
-            if ((double)zi != z || zi > 100000000 || zi < -100000000) { zi = 99999999; } /* not an integer: cannot equal the definition */
+            a_real z = Z[i];
+            /* the value in units of `scale` (an integer for every correct result) */
+            long zi = (long)roundl((long double)z / (long double)scale);
+            if ((a_real)zi * scale != z || zi > 100000000 || zi < -100000000) { zi = 99999999; } /* not a multiple: cannot equal the definition */
             fprintf(f, i ? ",%ld" : "%ld", zi);
-            if (z != (double)exp[i]) { ok = 0; }
+            if (z != (a_real)exp[i] * scale) { ok = 0; }
         }
         fputs("]}\n", f);
         if (!ok)
